@@ -231,7 +231,8 @@ def main(argv=None):
     except Exception as e:  # schema violation of our own evidence: inconclusive
         inconclusive.append(f"evidence does not validate: {e}")
     with open(ev_path, "w") as f:
-        json.dump(evidence, f, indent=1, sort_keys=True)
+        from vf.core import _strict
+        json.dump(_strict(evidence), f, indent=1, sort_keys=True, allow_nan=False)  # strict JSON
 
     print(f"[{prop} {tier} seed={seed}] evaluations={evaluations} "
           f"distinct_nontrivial={len(nontrivial)} shards={nshards} wall={wall:.1f}s")
